@@ -359,6 +359,15 @@ def run(cx):
         bad = [v for x in w for v in x.violations]
         ob.require(len(w) == 2 and not bad, "router/handler-of-route", "a route can end up paired with another route's handler: " + "; ".join(str(v.msg) for v in bad)[:300], "anemo::routing::Router")
 
+    with cx.ob("C02.11", "R-SIBLING", "one layer out: an error a typed handler answers with reaches the caller as the handler built it - Status::into_response writes the status, every header and the message, and from_response reads them back (C17.7 re-evaluated)") as ob:
+        from . import c17
+        sub = cx.__class__("C02", prog, cx.tier, cx.config, cx.tree, repo=cx.repo)
+        c17.run(sub)
+        w = [x for x in sub.obs if x.oid == "C17.7"]
+        ob.count(sum(x.evals for x in w))
+        bad = [v for x in w for v in x.violations]
+        ob.require(len(w) == 1 and not bad, "status/handler-error-intact", "the error status a handler produced is altered on its way to the caller: " + "; ".join(str(v.msg) for v in bad)[:300], "anemo::rpc::Status")
+
     with cx.ob("C02.10", "R-SHAPE", "one layer out: every tower Layer of the anemo crate (the boxed per-method layer of generated servers, the timeout and extension layers) wraps the service it is given - layer() builds its result directly around `inner` on every call, so a handler is never replaced by one built for another route") as ob:
         lbs = [b_ for b_ in prog.bodies.values() if b_.crate == "anemo" and "tower_layer::Layer" in b_.path and b_.path.endswith(">::layer")]
         ob.floor(lbs, 4, "Layer impls in the anemo crate")
